@@ -358,7 +358,7 @@ fn build_program(t: &Ty, rows: &[Pat], unmatched_pick: usize, as_let: bool, effe
         Expr::Match(Box::new(scrut), arms.clone())
     };
     let m_id = g.p.fns.len();
-    g.p.fns.push(FnDef {
+    g.p.fns.push(FnDef { owner: None, bounds: vec![],
         name: "m".into(),
         tparams: 0,
         params: vec![(v, t.clone())],
@@ -407,7 +407,7 @@ fn build_program(t: &Ty, rows: &[Pat], unmatched_pick: usize, as_let: bool, effe
         ));
     }
     let main_id = g.p.fns.len();
-    g.p.fns.push(FnDef {
+    g.p.fns.push(FnDef { owner: None, bounds: vec![],
         name: "main".into(),
         tparams: 0,
         params: vec![],
